@@ -174,7 +174,7 @@ def run_reference(schema, text, variables=None):
     return res, sorted(rec)
 
 
-def check_document(schema, body, optype, exprs, problems):
+def check_document(schema, body, optype, exprs, problems):  # schema: the case's schema (default family or a derived one)
     q = body.get("query")
     try:
         doc = parse(q)
@@ -227,17 +227,97 @@ def check_document(schema, body, optype, exprs, problems):
         problems.append(("response_shape_differs", f"sent -> {json.dumps(sres.data)[:250]} ; equivalent text -> {json.dumps(rres.data)[:250]}"))
 
 
+def member(cls, graphql_name):
+    """The builder member for a GraphQL field, whatever spelling the generator chose for it (the document decides)."""
+    from ariadne_codegen.utils import str_to_snake_case
+    sn = str_to_snake_case(graphql_name)
+    for cand in (sn, sn + "_", graphql_name, graphql_name + "_", sn.lstrip("_"), sn.lstrip("_") + "_"):
+        if cand in vars(cls) or hasattr(cls, cand):
+            return getattr(cls, cand)
+    raise AttributeError(f"{cls.__name__} has no member for GraphQL field {graphql_name!r} (members: {[k for k in vars(cls) if not k.startswith('__')][:12]})")
+
+
+def derived_name_cases(tier):
+    """One tiny schema per member name: the name as attribute field, as method field returning an object, as method field returning a
+    leaf, and as root field; every builder expression has its equivalent text."""
+    from mc.corpus2 import name_catalogue
+    cases = []
+    from ariadne_codegen.utils import str_to_snake_case
+    for n in name_catalogue():
+        if n in ("tt", "mm", "ll", "zz", "Zz"):
+            continue
+        import keyword
+        camel = str_to_snake_case(n) != n   # method fields with such names are the known finding sent_invalid|camel_method_field
+        kw = keyword.iskeyword(str_to_snake_case(n))
+        kinds = {
+            "attr": (f"type T {{ {n}: Int zz: ID }}\ntype Query {{ tt: T }}\n", f"Query.tt().fields(_m(TFields, '{n}'))", f"tt {{ {n} }}", set()),
+            "method_object": (f"type Sub {{ zz: ID }}\ntype M {{ {n}(a: Int): Sub zz: ID }}\ntype Query {{ mm: M }}\n",
+                              f"Query.mm().fields(_m(MFields, '{n}')(a=1).fields(SubFields.zz))", f"mm {{ {n}(a: 1) {{ zz }} }}", ({"camel_method_field"} if camel else set()) | ({"keyword_method_field"} if kw else set())),
+            "method_leaf": (f"type L {{ {n}(a: Int): Int zz: ID }}\ntype Query {{ ll: L }}\n", f"Query.ll().fields(_m(LFields, '{n}')(a=2))", f"ll {{ {n}(a: 2) }}",
+                            ({"camel_method_field"} if camel else set()) | ({"keyword_method_field"} if kw else set())),
+            "root": (f"type T {{ zz: ID }}\ntype Query {{ {n}: T }}\n", f"_m(Query, '{n}')().fields(TFields.zz)", f"{n} {{ zz }}", set()),
+        }
+        for kind, (sch, py, gql, extra) in kinds.items():
+            cases.append(dict(kind="expr", options={}, schema_text=sch, ops=[("query", [(py, gql, set())])], tags={"derived_names", f"name:{n}@{kind}"} | extra))
+    return cases
+
+
+def derived_graph_cases(tier):
+    """Every directed graph of object-type references on 3 types (self loops in the thorough tier), fields written in ascending and in
+    descending target order: every type reachable from Query needs its builder class, and every edge must be selectable."""
+    import itertools as it
+    names = ["A", "B", "C"]
+    pairs = [(x, y) for x in names for y in names if tier != "quick" or x != y]
+    cases = []
+    for r in range(len(pairs) + 1):
+        for edges in it.combinations(pairs, r):
+            for order in ("asc", "desc"):
+                parts = []
+                for x in names:
+                    tgt = [y for (a, y) in edges if a == x]
+                    tgt = sorted(tgt, reverse=(order == "desc"))
+                    parts.append(f"type {x} {{ " + " ".join(["id: ID"] + [f"{y.lower()}(n: Int): {y}" for y in tgt]) + " }")
+                if order == "desc":
+                    parts = [p.replace("{ id: ID ", "{ ").replace(" }", " id: ID }") for p in parts]  # back-references first, scalar last
+                sch = "\n".join(parts) + "\ntype Query { a: A }\n"
+                # BFS paths from A
+                paths = {"A": []}
+                todo = ["A"]
+                while todo:
+                    x = todo.pop(0)
+                    for (a, y) in edges:
+                        if a == x and y not in paths:
+                            paths[y] = paths[x] + [(x, y)]
+                            todo.append(y)
+                exprs = []
+                for (x, y) in edges:
+                    if x not in paths:
+                        continue
+                    chain = paths[x] + [(x, y)]
+                    py = f"{y}Fields.id"
+                    gql = "id"
+                    for (p, q) in reversed(chain):
+                        py = f"{p}Fields.{q.lower()}().fields({py})"
+                        gql = f"{q.lower()} {{ {gql} }}"
+                    exprs.append((f"Query.a().fields({py})", f"a {{ {gql} }}", set()))
+                if not exprs:
+                    continue
+                cases.append(dict(kind="expr_multi", options={}, schema_text=sch, ops=[("query", [e]) for e in exprs],
+                                  tags={"derived_type_graph", f"edges:{len(edges)}", f"field_order:{order}"} | ({"self_loop"} if any(a == b for a, b in edges) else set())))
+    return cases
+
+
 def build_in(ns, expr):
     return eval(expr, ns)  # noqa: S307 — expressions come from this file's grammar
 
 
 def evaluate(case):
     """case: options, ops = [(optype, [exprs])], histories: list of expression strings executed first."""
-    schema = get_schema()
+    schema = build_schema(case["schema_text"]) if case.get("schema_text") else get_schema()
     out = {"status": "ok", "results": []}
     with genpkg.scratch() as d:
         try:
-            pkg, pdir, _ = genpkg.generate(d, SCHEMA, None, dict({"enable_custom_operations": True}, **case["options"]))
+            pkg, pdir, _ = genpkg.generate(d, case.get("schema_text") or SCHEMA, None, dict({"enable_custom_operations": True}, **case["options"]))
             mod, mods = genpkg.import_package(d, pkg)
         except genpkg.GenError as e:
             out.update(status="gen_error", error=str(e)[:300], error_type=e.exc_type)
@@ -245,9 +325,10 @@ def evaluate(case):
         except BaseException as e:  # noqa
             out.update(status="import_error", error=f"{type(e).__name__}: {str(e)[:300]}", error_type=type(e).__name__)
             return out
-        ns = {}
+        ns = {"_m": member}
         for m in ("custom_fields", "custom_queries", "custom_mutations", "custom_typing_fields", "input_types", "enums"):
-            ns.update({k: v for k, v in vars(mods[m]).items() if not k.startswith("_")})
+            if m in mods:
+                ns.update({k: v for k, v in vars(mods[m]).items() if not k.startswith("_")})
         is_async = case["options"].get("async_client", True)
         captured = []
 
@@ -319,12 +400,17 @@ def main(tier):
             pass
         for o in sel:
             cases.append(dict(kind="expr", options=cfg, ops=[(o[0], o[1])], tags=o[2]))
+    cases += derived_name_cases(tier) + derived_graph_cases(tier)
     results = pool.run_cases(evaluate, cases, timeout=300, progress=500)
     docs = 0
     distinct = set()
     for case, (st, r) in zip(cases, results):
         feats = set(case["tags"]) | {f"cfg:{k}={v}" for k, v in case["options"].items()}
         desc = {"expressions": [e[0] for e in case["ops"][0][1]], "equivalent": [e[1] for e in case["ops"][0][1]], "operation_type": case["ops"][0][0], "options": case["options"]}
+        if case.get("schema_text"):
+            desc["schema_text"] = case["schema_text"]
+            if case["kind"] == "expr_multi":
+                desc["all_ops"] = [[o[0], [list(e[:2]) for e in o[1]]] for o in case["ops"]]
         if rep.triage:
             rep.seen(feats)
         if st != "ok":
@@ -410,6 +496,9 @@ def replay(path):
         print("after history:", r["results"][0]["doc"], "\nfresh:", f["results"][0]["doc"])
         return 1 if r["results"][0]["doc"] != f["results"][0]["doc"] else 0
     exprs = [(p, g, set()) for p, g in zip(c["expressions"], c["equivalent"])]
-    st, r = pool.run_forked(evaluate, dict(options=c["options"], ops=[(c["operation_type"], exprs)]))
+    ops = [(c["operation_type"], exprs)]
+    if c.get("all_ops"):
+        ops = [(o[0], [(e[0], e[1], set()) for e in o[1]]) for o in c["all_ops"]]
+    st, r = pool.run_forked(evaluate, dict(options=c["options"], ops=ops, schema_text=c.get("schema_text")))
     print(st, r)
-    return 1 if st != "ok" or r["status"] != "ok" or r["results"][0]["problems"] else 0
+    return 1 if st != "ok" or r["status"] != "ok" or any(x["problems"] for x in r["results"]) else 0
